@@ -115,6 +115,16 @@ package basicnode
 //@   assigns ma.state
 //@   ensures[C01,C12] err == nil && ma.state == maState_finished && mapinv(ma.w, len(ma.w.t))
 
+// A key supplied as a string node behaves exactly like the same key supplied as a string; a node of
+// another kind is refused and nothing changes.
+//@ func (*plainMap__KeyAssembler).AssignNode(v) (err)
+//@   requires mka != nil && wip(mka.ma) && mka.ma.state == maState_midKey && v != nil
+//@   assigns mka.ma, old(mka.ma).state, old(mka.ma).w.t, cells(old(mka.ma).w.t)
+//@   ensures[C12] datamodel.vkind(v.val) == datamodel.Kind_String && indom(old(mka.ma.w.m), datamodel.vstr(v.val)) ==> iserr(err, "datamodel.ErrRepeatedMapKey") && old(mka.ma).state == maState_initial && old(mka.ma).w.t == old(mka.ma.w.t) && wip(old(mka.ma)) && mka.ma == nil
+//@   ensures[C01,C12] datamodel.vkind(v.val) == datamodel.Kind_String && !indom(old(mka.ma.w.m), datamodel.vstr(v.val)) ==> err == nil && old(mka.ma).state == maState_expectValue && mka.ma == nil
+//@         && len(old(mka.ma).w.t) == old(len(mka.ma.w.t)) + 1 && old(mka.ma).w.t[len(old(mka.ma).w.t)-1].k == datamodel.vstr(v.val) && wip(old(mka.ma))
+//@   ensures[C12] datamodel.vkind(v.val) != datamodel.Kind_String ==> err != nil && mka.ma == old(mka.ma) && mka.ma.state == maState_midKey && mka.ma.w.t == old(mka.ma.w.t)
+
 //@ func (*plainMap__KeyAssembler).AssignString(v) (err)
 //@   requires mka != nil && wip(mka.ma) && mka.ma.state == maState_midKey
 //@   assigns mka.ma, old(mka.ma).state, old(mka.ma).w.t, cells(old(mka.ma).w.t)
